@@ -25,7 +25,6 @@ while the finding is listed (``ctx.exclude``) - the committed replay files keep 
 """
 from . import gen
 from . import gen_inline as GI
-from .gen_inline import SG, conv  # noqa: F401
 from .model import var, lit, decl, routine, module
 from .native import fnum
 
@@ -64,6 +63,7 @@ FLAGS = [
 # meta['triggers'] names those that really occur in the built program AND touch a parametrised variable
 TRIGGERS = ['kw_role_mixed', 'pass_twice', 'ep_local_clash']
 SIZES = {'fill': (0, 2), 'nmatch': (1, 3)}
+SIZES_THOROUGH = {'fill': (0, 4), 'nmatch': (1, 3)}
 SIZE_MIN = {'fill': 0, 'nmatch': 1}
 STREAMS = ['kernel', 'mid0', 'mid1', 'leaf0', 'dic', 'inputs', 'layout']
 OPTS = {'replace_by_value': [False, True], 'abort': ['error_stop', 'default'], 'roles': ['A', 'B', 'F', 'AB', 'AF', 'BF', 'ABF'],
@@ -233,8 +233,12 @@ def make_routine(b, g, name, level, roles, names, children, funs, entry=False, i
                 r0 = g.pick(sorted(has))
                 sarg = ['b', '+', var(has[r0]), lit(1)]
                 b.use('expr_pass')
+            elif ci and not info.get('si_is_role'):
+                sarg = lit(g.i(1, 4))
             else:
-                sarg = lit(g.i(1, 4)) if ci else var('xi0' if entry else 'si')
+                # (a routine whose own `si` receives a role variable - pass_twice - passes it on in every call: all calls of
+                # one callee must pass the same parametrised variables to the same dummies)
+                sarg = var('xi0' if entry else 'si')
             if ch.get('twice') and ch['twice'] in has:
                 # TRIGGER pass_twice: the plain scalar dummy receives a role variable that is also passed to its own dummy
                 sarg = var(has[ch['twice']])
@@ -379,7 +383,8 @@ def build(spec):
                     clash.append((mid_names[o][r], r in roles_p))
                     break
         r, sig = make_routine(b, g_mids[k], f'mid{k}', 1, mr, mid_names[k], ch, funs if k == 0 else [],
-                              info={'is_ep': ep == 'mid', 'transformed': True, 'pset': pset(mr), 'clash_locals': clash})
+                              info={'is_ep': ep == 'mid', 'transformed': True, 'pset': pset(mr), 'clash_locals': clash,
+                                    'si_is_role': bool(F('pass_twice')) and k == 0})
         routines.append(r)
         mids.append(sig)
     if nm == 2:
@@ -393,7 +398,7 @@ def build(spec):
     if F('pass_twice'):
         # the plain scalar dummy of mid0 receives the same role variable a second time
         mids[0]['twice'] = mids[0]['roles'][0]
-    kr, ksig = make_routine(b, gk, 'kernel', 0, ['A', 'B', 'F'], names_for(0, 0), kch, [], entry=True,
+    kr, _ = make_routine(b, gk, 'kernel', 0, ['A', 'B', 'F'], names_for(0, 0), kch, [], entry=True,
                             info={'is_ep': below, 'transformed': below, 'pset': pset('ABF') if below else set()})
     routines.append(kr)
     pmod = module('pmod', routines=routines)
